@@ -1,4 +1,5 @@
-import Lemmas.TaskQueueW2
+import Lemmas.TaskQueueLive
+import Lemmas.TaskQueueNew
 /-! # C15 — the task queue runs every submitted task exactly once before Shutdown returns
 
 Property theorems only.  The model is the threaded program `TQW.TStep` (Model/TaskQueue.lean): submitters, the `in`
@@ -201,6 +202,72 @@ theorem variant_decreases (v : Variant) (c : Cfg) (hv : Sound v) (s s' : TS) (h 
     (st : TStep v c s s') : mu2 s' < mu2 s :=
   (mu2_step v c hv s s' (simulation v c hv.1 hv.2 s h).2 hs st).1
 
+/-- **no stall before Shutdown** ("each task accepted by Submit is executed" does not wait for `Shutdown`): in every
+    reachable state in which `Shutdown` has not been called and some accepted task has not finished, a rule other than the
+    completion of a new `Submit` or `Shutdown` is enabled — a dispatcher or worker step, or the end of a running task.
+    (`contrast_reentrant_*`: for tasks that submit to their own queue the queue does stall with tasks pending.) -/
+theorem no_stall_before_shutdown (v : Variant) (c : Cfg) (hv : InDomain v) (hw : 1 ≤ c.workers) (s : TS)
+    (h : TReachable v c s) (hs : s.q.shut = 0) (id : Nat) (hid : id < s.q.nextId) (hpend : s.q.finished.count id = 0) :
+    ∃ l s', tnext v c s l = some s' ∧ s'.q.nextId = s.q.nextId ∧ s'.q.shut = 0 := by
+  obtain ⟨s', st, hi⟩ := tprogress0 v c hv hw s h hs ⟨id, hid, hpend⟩
+  obtain ⟨l, hl⟩ := (tstep_iff_tnext v c s s').mp st
+  exact ⟨l, s', hl, hi.1, by rw [hi.2]; exact hs⟩
+
+/-- **every accepted task is executed, whether or not Shutdown is ever called** (liveness, no fairness assumption; any
+    panic pattern, handler or not, any depth): take any reachable state in which `Shutdown` has not been called and any
+    run of the queue left to itself from it — at every index some rule other than a new `Submit`/`Shutdown` fires
+    (chosen by an arbitrary scheduler), or no such rule is enabled and the state repeats.  After at most `mu2 s + 1` steps
+    every task accepted so far has finished, exactly once.  Assumptions: tasks end and do not submit to their own queue. -/
+theorem accepted_tasks_run_without_shutdown (v : Variant) (c : Cfg) (hv : InDomain v) (hw : 1 ≤ c.workers) (s : TS)
+    (h : TReachable v c s) (hs : s.q.shut = 0) (run : Nat → TS) (h0 : run 0 = s)
+    (hrun : ∀ i, (TStep v c (run i) (run (i + 1)) ∧ (run (i + 1)).q.nextId = (run i).q.nextId ∧ (run (i + 1)).q.shut = (run i).q.shut) ∨
+                 (run (i + 1) = run i ∧ ¬ ∃ s', TStep v c (run i) s' ∧ s'.q.nextId = (run i).q.nextId ∧ s'.q.shut = (run i).q.shut))
+    (id : Nat) (hid : id < s.q.nextId) : (run (mu2 s + 1)).q.finished.count id = 1 :=
+  taccepted_tasks_run v c hv hw s h hs run h0 hrun id hid
+
+/-- the variant behind it: every rule other than `Submit`/`Shutdown` strictly decreases `mu2`, Shutdown called or not -/
+theorem variant_decreases_internal (v : Variant) (c : Cfg) (hv : Sound v) (s s' : TS) (h : TReachable v c s)
+    (st : TStep v c s s') (hi : s'.q.nextId = s.q.nextId ∧ s'.q.shut = s.q.shut) : mu2 s' < mu2 s :=
+  mu2_step_internal v c hv s s' (simulation v c hv.1 hv.2 s h).2 st hi
+
+/-! ### `New`: the configurations the queue can be made with (Model/TaskQueueNew.lean, tied by area `cfg`) -/
+
+/-- **every queue `New` returns has at least one worker**, whatever options it is given (a `Workers` value below 1 —
+    or none — gives `1 + NumCPU`): the hypothesis `1 ≤ c.workers` of the liveness theorems holds for every queue that
+    exists; a `Workers(n)`, `n ≥ 1`, that is not overridden is obeyed exactly -/
+theorem new_workers_pos (ncpu : Nat) (opts : List TQNew.Opt) :
+    1 ≤ (TQNew.newCfg ncpu opts).workers ∧
+    ((TQNew.fields opts).workers < 1 → (TQNew.newCfg ncpu opts).workers = 1 + ncpu) ∧
+    (1 ≤ (TQNew.fields opts).workers → ((TQNew.newCfg ncpu opts).workers : Int) = (TQNew.fields opts).workers) :=
+  ⟨TQNew.newCfg_workers_pos ncpu opts, TQNew.newCfg_default_workers ncpu opts, TQNew.newCfg_workers_obeyed ncpu opts⟩
+
+/-- options are applied in the order given — the last `Workers` / `Depth` / `RecoveryHandler` wins — and an option writes
+    only its own field -/
+theorem new_applies_options_in_order (opts : List TQNew.Opt) :
+    (∀ n, (TQNew.fields (opts ++ [.workers n])).workers = n ∧ (TQNew.fields (opts ++ [.workers n])).depth = (TQNew.fields opts).depth ∧
+          (TQNew.fields (opts ++ [.workers n])).handler = (TQNew.fields opts).handler) ∧
+    (∀ n, (TQNew.fields (opts ++ [.depth n])).depth = n ∧ (TQNew.fields (opts ++ [.depth n])).workers = (TQNew.fields opts).workers ∧
+          (TQNew.fields (opts ++ [.depth n])).handler = (TQNew.fields opts).handler) ∧
+    (∀ b, (TQNew.fields (opts ++ [.handler b])).handler = b ∧ (TQNew.fields (opts ++ [.handler b])).workers = (TQNew.fields opts).workers ∧
+          (TQNew.fields (opts ++ [.handler b])).depth = (TQNew.fields opts).depth) := by
+  obtain ⟨h1, h2, h3⟩ := TQNew.last_option_wins opts
+  exact ⟨fun n => ⟨h1 n, TQNew.option_independent opts (.workers n)⟩, fun n => ⟨h2 n, TQNew.option_independent opts (.depth n)⟩,
+         fun b => ⟨h3 b, TQNew.option_independent opts (.handler b)⟩⟩
+
+/-- the defaults of `New()`: unbounded queue, no recovery handler, `1 + NumCPU` workers, `in` of capacity `2·NumCPU` -/
+theorem new_defaults (ncpu : Nat) :
+    TQNew.newCfg ncpu [] = { workers := 1 + ncpu, depth := -1, inCap := ncpu * 2, handler := false } :=
+  TQNew.newCfg_defaults ncpu
+
+/-- **Shutdown returns, for every queue `New` can make** (`shutdown_returns` without the hypothesis on the configuration):
+    any machine, any options in any order -/
+theorem shutdown_returns_for_every_new_queue (ncpu : Nat) (opts : List TQNew.Opt) (s : TS)
+    (h : TReachable code (TQNew.newCfg ncpu opts) s) (hs : 1 ≤ s.q.shut) (run : Nat → TS) (h0 : run 0 = s)
+    (hrun : ∀ i, TStep code (TQNew.newCfg ncpu opts) (run i) (run (i + 1)) ∨
+                 (run (i + 1) = run i ∧ ¬ ∃ s', TStep code (TQNew.newCfg ncpu opts) (run i) s')) :
+    (run (mu2 s + 1)).q.shut = 2 :=
+  tshutdown_returns code _ code_inDomain (TQNew.newCfg_workers_pos ncpu opts) s h hs run h0 hrun
+
 /-- the code as it is lies in both classes -/
 theorem code_is_in_domain : InDomain code ∧ Sound code := ⟨code_inDomain, code_inDomain.1⟩
 
@@ -275,5 +342,11 @@ example :
 example : ∃ s, TReachable code { workers := 1, depth := 1, inCap := 1 } s ∧ 1 ≤ s.q.shut ∧ s.q.pc ≠ .fin :=
   ⟨_, executable_states_reachable code { workers := 1, depth := 1, inCap := 1 } [.q (.submit false), .q .shutdown] _ rfl,
    by decide, by decide⟩
+
+/-- the hypotheses of `no_stall_before_shutdown` are satisfiable: two tasks accepted, none finished, no Shutdown -/
+example : ∃ s, TReachable code { workers := 1, depth := 0, inCap := 2 } s ∧ s.q.shut = 0 ∧ 1 < s.q.nextId ∧
+    s.q.finished.count 1 = 0 :=
+  ⟨_, executable_states_reachable code { workers := 1, depth := 0, inCap := 2 } [.q (.submit false), .q (.submit true)] _ rfl,
+   by decide, by decide, by decide⟩
 
 end C15
